@@ -93,6 +93,8 @@ def run_case(case, R):
     try:
         base = run(s.init, s.mask)
     except Exception as e:
+        if not instr.is_library_exception(e):
+            raise
         R.count(f'base fit raised {type(e).__name__}')
         R.undecided('C05.posterior', 'base fit raised')
         return
@@ -127,6 +129,8 @@ def run_case(case, R):
         try:
             got = run(init_p, mask_p, fc_p)
         except Exception as e:
+            if not instr.is_library_exception(e):
+                raise
             if 'ill-defined empirical covariance' in str(e) or isinstance(e, np.linalg.LinAlgError):
                 # numerically singular class covariance: whether the Cholesky factorisation fails is decided by rounding
                 R.undecided('C05.posterior', 'numerically singular covariance (raise decided by rounding)')
